@@ -24,6 +24,7 @@ func forkAndExecInChild(r *Runner, argv0 *byte, argv, env []*byte, workdir, host
 		unshareUser = r.CloneFlags&unix.CLONE_NEWUSER == unix.CLONE_NEWUSER
 		i           int
 		rlim        rlimit.RLimit
+		targetStat  syscall.Stat_t
 		// local copy: the child may share memory with the caller (CLONE_VM), r must not be written
 		execFile = r.ExecFile
 	)
@@ -256,11 +257,24 @@ func forkAndExecInChild(r *Runner, argv0 *byte, argv, env []*byte, workdir, host
 					if err1 != 0 && err1 != syscall.EEXIST {
 						childExitErrorWithIndex(pipe, LocMountMkdir, i, err1)
 					}
-					break
+				} else {
+					_, _, err1 = syscall.RawSyscall(syscall.SYS_MKDIRAT, uintptr(_AT_FDCWD), uintptr(unsafe.Pointer(p)), 0755)
+					if err1 != 0 && err1 != syscall.EEXIST {
+						childExitErrorWithIndex(pipe, LocMountMkdir, i, err1)
+					}
 				}
-				_, _, err1 = syscall.RawSyscall(syscall.SYS_MKDIRAT, uintptr(_AT_FDCWD), uintptr(unsafe.Pointer(p)), 0755)
-				if err1 != 0 && err1 != syscall.EEXIST {
-					childExitErrorWithIndex(pipe, LocMountMkdir, i, err1)
+				if err1 == syscall.EEXIST {
+					// Something is there already (the target lies inside an earlier bind mount). mount(2)
+					// follows symbolic links: a link left in a reused source directory would put the
+					// mount somewhere else and leave the declared name unprotected
+					_, _, err1 = syscall.RawSyscall6(syscall.SYS_NEWFSTATAT, uintptr(_AT_FDCWD), uintptr(unsafe.Pointer(p)),
+						uintptr(unsafe.Pointer(&targetStat)), uintptr(unix.AT_SYMLINK_NOFOLLOW), 0, 0)
+					if err1 == 0 && targetStat.Mode&syscall.S_IFMT == syscall.S_IFLNK {
+						childExitErrorWithIndex(pipe, LocMountMkdir, i, syscall.ELOOP)
+					}
+				}
+				if j == len(m.Prefixes)-1 && m.MakeNod {
+					break
 				}
 			}
 			// mount(source, target, fsType, flags, data)
